@@ -382,6 +382,10 @@ func genC12Inert(t *rapid.T) c12Case {
 		}
 		n = len(c.Rules)
 	}
+	if len(c.Rules) > 1 && chance(t, "bom-first-line", 8) {
+		// the mark is content of the first line like any other byte; nothing else about the list changes
+		c.Rules[0] = "\xef\xbb\xbf" + c.Rules[0]
+	}
 	shortLast := chance(t, "short-rule-last", 3)
 	if shortLast {
 		// the shortest rules there are, as the last line
